@@ -5,6 +5,7 @@ import (
 	"context"
 	"crypto/sha256"
 	"encoding/hex"
+	"errors"
 	"fmt"
 	"io"
 	"net"
@@ -18,6 +19,7 @@ import (
 
 	"github.com/saucelabs/forwarder"
 	"github.com/saucelabs/forwarder/log"
+	"github.com/saucelabs/forwarder/ratelimit"
 )
 
 // e2eSpec is one transfer through a real proxy listener configured with (RL, WL).
@@ -55,12 +57,9 @@ func (r e2eResult) coq() string {
 		cbool(r.HashOK && r.Err == ""), maxCall, int64(skewAllow))
 }
 
+// burstOf is the bucket size the implementation gives a limit (so that transfer sizes follow the source).
 func burstOf(r int64) int64 {
-	b := r / 64
-	if b < 4*MiB {
-		b = 4 * MiB
-	}
-	return b
+	return int64(ratelimit.VerifNewRateLimiter(r).Burst())
 }
 
 func e2ePlan(tier string) []e2eSpec {
@@ -178,6 +177,8 @@ func originHandler() http.Handler {
 	return mux
 }
 
+const e2eDeadline = 25 * time.Second
+
 type rig struct {
 	proxy     *forwarder.HTTPProxy
 	proxyAddr string
@@ -232,6 +233,7 @@ func (r *rig) openConn(mode string) (net.Conn, *bufio.Reader, error) {
 	if err != nil {
 		return nil, nil, err
 	}
+	c.SetDeadline(time.Now().Add(e2eDeadline))
 	br := bufio.NewReaderSize(c, 32768)
 	if mode == "tunnel" {
 		oa := r.originLn.Addr().String()
@@ -267,6 +269,10 @@ func (r *rig) transfer(spec e2eSpec) e2eResult {
 		mu.Lock()
 		if res.Err == "" {
 			res.Err = err.Error()
+			var ne net.Error
+			if errors.As(err, &ne) && ne.Timeout() {
+				res.Err = "timeout: " + res.Err
+			}
 		}
 		mu.Unlock()
 	}
@@ -301,6 +307,8 @@ func (r *rig) transfer(spec e2eSpec) e2eResult {
 				return
 			}
 			defer c.Close()
+			// a transfer that stalls (e.g. a limiter with rate 0) ends here and is reported as incomplete
+			c.SetDeadline(start.Add(e2eDeadline))
 			host := r.originLn.Addr().String()
 			if spec.Dir == "down" {
 				fmt.Fprintf(c, "GET %s HTTP/1.1\r\nHost: %s\r\n\r\n", r.target(spec.Mode, "/down?size="+strconv.FormatInt(per, 10)), host)
@@ -324,6 +332,9 @@ func (r *rig) transfer(spec e2eSpec) e2eResult {
 						total.Add(int64(n))
 					}
 					if err != nil {
+						if err != io.EOF {
+							fail(err)
+						}
 						break
 					}
 				}
